@@ -3,7 +3,9 @@ package dsim
 import (
 	"errors"
 	"io"
+	"os"
 	"sync"
+	"time"
 )
 
 // ByteDir is one direction of a simulator-owned ordered byte stream. Write never blocks;
@@ -123,7 +125,21 @@ func (d *ByteDir) CloseRead() {
 }
 
 // Read implements io.Reader for the receiving end.
-func (d *ByteDir) Read(b []byte) (int, error) {
+func (d *ByteDir) Read(b []byte) (int, error) { return d.ReadDeadline(b, time.Time{}) }
+
+// ReadDeadline is Read with an absolute (fake-clock) deadline; zero means none.
+func (d *ByteDir) ReadDeadline(b []byte, deadline time.Time) (int, error) {
+	var timer *time.Timer
+	var timeout <-chan time.Time
+	if !deadline.IsZero() {
+		dur := time.Until(deadline)
+		if dur <= 0 {
+			return 0, os.ErrDeadlineExceeded
+		}
+		timer = time.NewTimer(dur)
+		timeout = timer.C
+		defer timer.Stop()
+	}
 	for {
 		d.mu.Lock()
 		if d.closedR {
@@ -163,7 +179,11 @@ func (d *ByteDir) Read(b []byte) (int, error) {
 		}
 		w := d.wake
 		d.mu.Unlock()
-		<-w
+		select {
+		case <-w:
+		case <-timeout:
+			return 0, os.ErrDeadlineExceeded
+		}
 	}
 }
 
